@@ -185,4 +185,91 @@ theorem zipMarks_fst (lines : List Text) (marks : List Bool) : (zipMarks lines m
       simp only [List.zipWith_cons_cons, List.map_cons, List.cons.injEq, true_and]
       exact ih ms hlen
 
+/-! ### splitGoNL (the group also captures the separator's newline) -/
+
+theorem countNL_append_nl (a : Text) : countNL (a ++ ['\n']) = countNL a + 1 := by
+  induction a with
+  | nil => simp [countNL]
+  | cons x xs ih =>
+    show (if x = '\n' then 1 else 0) + countNL (xs ++ ['\n']) = (if x = '\n' then 1 else 0) + countNL xs + 1
+    rw [ih]; omega
+
+/-- Whole-file line numbers when the section starts at the beginning of a line: if `a` ends with a
+    newline, line `r` of `b` (1 ≤ r, terminated inside `b`) is line `countNL a + r` of `a ++ b ++ c`. -/
+theorem lineAt_section_at_line_start (a' b c : Text) (r : Nat) (hr : 1 ≤ r) (hin : r ≤ countNL b) :
+    lineAt ((a' ++ ['\n']) ++ b ++ c) (countNL (a' ++ ['\n']) + r) = lineAt b r := by
+  obtain ⟨k, rfl⟩ : ∃ k, r = k + 1 := ⟨r - 1, by omega⟩
+  have e1 : (a' ++ ['\n']) ++ b ++ c = a' ++ '\n' :: (b ++ c) := by simp
+  have hcnt := countNL_append_nl a'
+  rw [e1, hcnt]
+  show (splitLines (a' ++ '\n' :: (b ++ c)))[countNL a' + 1 + k]? = (splitLines b)[k]?
+  rw [splitLines_append_nl]
+  have hlen := length_splitLines a'
+  rw [List.getElem?_append_right (by omega)]
+  have : countNL a' + 1 + k - (splitLines a').length = k := by omega
+  rw [this]
+  exact splitLines_append_prefix b c k (by omega)
+
+/-- The text the not-yet-consumed lines stand for. -/
+def pendingText (lines : List (Text × Bool)) (first : Bool) : Text :=
+  if first then joinLines (lines.map (·.1)) else restText lines
+
+theorem restText_cons (l : Text × Bool) (ls : List (Text × Bool)) :
+    restText (l :: ls) = '\n' :: l.1 ++ restText ls := by simp [restText]
+
+theorem joinLines_map_cons (l : Text × Bool) (ls : List (Text × Bool)) :
+    joinLines ((l :: ls).map (·.1)) = l.1 ++ restText ls := by
+  rw [List.map_cons, joinLines_cons]; simp [restText, List.flatMap_map]
+
+theorem concat_splitGoNL (lines : List (Text × Bool)) (cur : Text) (first : Bool) :
+    concat (splitGoNL lines cur first) = cur ++ pendingText lines first := by
+  induction lines generalizing cur first with
+  | nil => cases first <;> simp [splitGoNL, concat, pendingText, restText, joinLines]
+  | cons l ls ih =>
+    obtain ⟨line, m⟩ := l
+    have hpend : (if first then cur else cur ++ ['\n']) ++ line ++ restText ls =
+        cur ++ pendingText ((line, m) :: ls) first := by
+      cases first
+      · simp [pendingText, restText_cons]
+      · have h := joinLines_map_cons (line, m) ls
+        simp only [pendingText, ↓reduceIte, h]
+        simp
+    unfold splitGoNL
+    by_cases hm : (m && !ls.isEmpty) = true
+    · simp only [hm, ↓reduceIte]
+      have hne : ls ≠ [] := by
+        intro h; simp [h] at hm
+      have := ih [] true
+      simp only [concat, List.foldr_cons] at this ⊢
+      rw [this, ← hpend]
+      obtain ⟨l2, ls2, rfl⟩ : ∃ l2 ls2, ls = l2 :: ls2 := by
+        cases ls with
+        | nil => exact absurd rfl hne
+        | cons a b => exact ⟨a, b, rfl⟩
+      have h := joinLines_map_cons l2 ls2
+      simp only [pendingText, ↓reduceIte, h, restText_cons]
+      simp
+    · simp only [hm, Bool.false_eq_true, ↓reduceIte]
+      rw [ih, ← hpend]
+      simp [pendingText]
+
+/-- In this mode every separator chunk ends with the newline it captured. -/
+def sepsEndNL : List Text → Bool
+  | [] => false
+  | [_] => true
+  | _ :: m :: rest => (m.getLast? == some '\n') && sepsEndNL rest
+
+theorem sepsEndNL_splitGoNL (lines : List (Text × Bool)) (cur : Text) (first : Bool) :
+    sepsEndNL (splitGoNL lines cur first) = true := by
+  induction lines generalizing cur first with
+  | nil => simp [splitGoNL, sepsEndNL]
+  | cons l ls ih =>
+    obtain ⟨line, m⟩ := l
+    unfold splitGoNL
+    by_cases hm : (m && !ls.isEmpty) = true
+    · simp only [hm, ↓reduceIte, sepsEndNL, Bool.and_eq_true]
+      exact ⟨by simp, ih [] true⟩
+    · simp only [hm, Bool.false_eq_true, ↓reduceIte]
+      exact ih _ false
+
 end Pedal.Sections
